@@ -30,7 +30,7 @@ META = {
                    'weight, for distinct fresh draws a, b (either order of the two draws accepted); otherwise nothing changes; '
                    'the state invariant is re-established. log/exp are uninterpreted functions, so the equalities are proved by '
                    'congruence for every real value of the state and draws.',
-    'bounds': {'quick': {'k': '1..3', 'n': 'symbolic (any stream length)'}, 'thorough': {'k': '1..5', 'n': 'symbolic'}},
+    'bounds': {'quick': {'k': '1..3', 'n': 'symbolic (any stream length)'}, 'thorough': {'k': '1..8', 'n': 'symbolic'}},
     'outside': ['uniformity of Algorithm L itself (Li 1994, cited theorem)', 'floating-point rounding in log/exp/floor',
                 'random.random() == 0.0', 'k beyond the bound (the code is uniform in k; enumerated only)'],
     'assumptions': ['log, exp uninterpreted with sign axioms; floor = exact ToInt', 'random.random() in (0,1); randrange over the '
@@ -39,7 +39,7 @@ META = {
 
 
 def configs(tier):
-    kmax = 3 if tier == 'quick' else 5
+    kmax = 3 if tier == 'quick' else 8
     cfgs = []
     for k in range(1, kmax + 1):
         cfgs.append(dict(group='ctor', k=k))
